@@ -8,6 +8,9 @@
                                            (names / kinds / bounds / comparison operators / defaults, bit for bit, in order)
                                            than the constructor chain of its class in the table
      FACTTAB-UNREACHED <label>             table objects no factory returned (listed, not failed)
+     TABFAIL CLONE|COPYCTOR <index> ...    (stage CLONETAB) a record of the clone table fails its check
+     MISMATCH CLONETAB ...                 (stage CLONETAB) clone() of a factory object by the source table differs from the library's clone
+     CLONETAB-UNREACHED <class>            clone() records of classes no factory object / component has (listed)
    and finally MODEL-DONE checked=<n> mismatches=<m> ub=<k> (k = reads the model marks undefined and the harness skipped).
    Integers travel as int64 decimal strings, doubles as C %a strings, strings hex-encoded. *)
 let mism = ref 0
@@ -210,6 +213,73 @@ let table_checks () =
         Printf.printf "TABFAIL USE %d %s:%s %s\n" i (ascii_of_str file) (dec_of_z line) (ascii_of_str name)
       end) use_table
 
+(* ---- stage CLONETAB: the clone table regenerated from the source vs the compiled library ---------------- *)
+let clone_fail = ref 0
+let clonetab_lines = ref 0
+let clonetab_comps = ref 0
+let clone_reached : (string, bool) Hashtbl.t = Hashtbl.create 64
+let chars_of_string (s : string) : char list = List.init (String.length s) (String.get s)
+let string_of_chars (l : char list) : string = String.concat "" (List.map (String.make 1) l)
+let key_of_class (s : string) : string =
+  let s = norm_class s in match String.index_opt s '<' with Some k -> String.sub s 0 k | None -> s
+
+let clone_table_checks () =
+  List.iteri (fun i (((((file, line), cls), key), this), ok) ->
+      incr total;
+      if not (this && ok) then begin
+        incr clone_fail; incr mism;
+        Printf.printf "TABFAIL CLONE %d %s:%s %s :: %s\n" i (ascii_of_str file) (dec_of_z line) (ascii_of_str cls)
+          (if not this then "clone() does not return std::make_unique<own class>(*this) (C19_clones_copy_this fails for this record)"
+           else "a copy constructor along the class chain of " ^ ascii_of_str key ^ " does not hand `other` to its bases or does not deep-clone an owning member (class_clone_ok false)")
+      end) clone_table;
+  List.iteri (fun i ((((name, file), line), complete), memberwise) ->
+      incr total;
+      if not (complete && memberwise) then begin
+        incr clone_fail; incr mism;
+        Printf.printf "TABFAIL COPYCTOR %d %s:%s %s :: %s\n" i (ascii_of_str file) (dec_of_z line) (ascii_of_str name)
+          (if not complete then "the user-written copy constructor does not copy / deep-clone every data member, does not pass `other` to every base, has another initialiser or a non-empty body (C19_copy_ctors_complete fails)"
+           else "a member-wise copy of this class is ill-formed or aliases mutable state: owning pointer without user-written copy constructor, raw pointer / reference to non-const / shared_ptr member, or deleted copy (C19_copies_no_aliasing fails)")
+      end) class_table
+
+(* `<clshex> <cfg> [## <memberhex> <clshex> <cfg>]*` *)
+let parse_node (s : string) : string * param list =
+  match words s with
+  | c :: rest -> (key_of_class (ascii_of_hex c), parse_cfg (String.concat " " rest))
+  | [] -> failwith "empty object"
+let parse_tree (s : string) : obj =
+  match split_str " ## " s with
+  | root :: comps ->
+    let (cls, cfg) = parse_node root in
+    Obj (chars_of_string cls, cfg,
+         List.map (fun c -> match words c with
+             | m :: rest -> let (ccls, ccfg) = parse_node (String.concat " " rest) in
+               incr clonetab_comps;
+               (chars_of_string (ascii_of_hex m), Obj (chars_of_string ccls, ccfg, []))
+             | [] -> failwith "empty component") comps)
+  | [] -> failwith "empty tree"
+let rec show_tree (o : obj) : string = match o with
+  | Obj (cls, cfg, comps) ->
+    string_of_chars cls ^ " {" ^ String.concat "; " (List.map (fun p -> ascii_of_str p.pname ^ " " ^ show_st p.pstore) cfg) ^ "}" ^
+    String.concat "" (List.map (fun (m, c) -> " ## " ^ string_of_chars m ^ " = " ^ show_tree c) comps)
+let rec tree_eq (a : obj) (b : obj) : bool = match a, b with
+  | Obj (c1, f1, l1), Obj (c2, f2, l2) ->
+    c1 = c2 && cfg_eq f1 f2 && List.length l1 = List.length l2 && List.for_all2 (fun (m1, o1) (m2, o2) -> m1 = m2 && tree_eq o1 o2) l1 l2
+let rec mark_reached (o : obj) = match o with
+  | Obj (cls, _, comps) -> Hashtbl.replace clone_reached (string_of_chars cls) true; List.iter (fun (_, c) -> mark_reached c) comps
+
+let clonetab_object (line : string) (fname : string) (idhex : string) (orig : string) (clone : string) =
+  incr clonetab_lines; incr total;
+  let o = parse_tree orig and c = parse_tree clone in
+  mark_reached o;
+  let id = ascii_of_hex idhex in
+  if not (src_shaped o) then begin
+    incr mism; Printf.printf "MISMATCH CLONETAB %s %s // the clone table regenerated from the source has no clone() record for the dynamic class of this object (or of one of its components), or the component does not hang on an owning member of its class chain: %s\n" fname id (show_tree o) end
+  else match src_oclone o with
+    | None -> incr mism; Printf.printf "MISMATCH CLONETAB %s %s // source table: clone() of this object is not a copy of itself (see TABFAIL CLONE / COPYCTOR); object: %s // library clone: %s\n" fname id (show_tree o) (show_tree c)
+    | Some m ->
+      if not (tree_eq m c) then begin
+        incr mism; Printf.printf "MISMATCH CLONETAB %s %s // object: %s // clone by the source table: %s // clone by the library: %s\n" fname id (show_tree o) (show_tree m) (show_tree c) end
+
 let defaults_buf : (z list * storage) list ref = ref []
 
 let facttab_object (line : string) (fname : string) (idhex : string) (clshex : string) =
@@ -275,6 +345,7 @@ let handle_set line (lhs : string list) (rhs : string) (s : storage) : storage =
 
 let () =
   table_checks ();
+  clone_table_checks ();
   (try
     while true do
       let line = input_line stdin in
@@ -401,6 +472,10 @@ let () =
            | ["FACT"; fname; idhex; _; cls] when String.length cls > 4 && String.sub cls 0 4 = "cls=" ->
              facttab_object line fname idhex (String.sub cls 4 (String.length cls - 4))
            | "FACT" :: _ -> defaults_buf := []
+           | "CLONED" :: fname :: idhex :: "::" :: _ ->
+             (match split_str " :: " line with
+              | [_; orig; clone] -> clonetab_object line fname idhex orig clone
+              | _ -> report line "unparsable CLONED line")
            | _ -> ())
       with
       | End_of_file -> raise End_of_file
@@ -411,4 +486,8 @@ let () =
       if not (Hashtbl.mem reached (ascii_of_str label)) then Printf.printf "FACTTAB-UNREACHED %s\n" (ascii_of_str label)) object_table;
   Printf.printf "FACTTAB-DONE objects=%d matched=%d params=%d without_parameters_and_not_in_table=%d table_params=%d table_objects=%d table_uses=%d tabfail=%d\n"
     !facttab_objects !facttab_checked !facttab_params !facttab_noparam (List.length param_table) (List.length object_table) (List.length use_table) !tab_fail;
+  List.iter (fun (((((_, _), _), key), _), _) ->
+      if not (Hashtbl.mem clone_reached (ascii_of_str key)) then Printf.printf "CLONETAB-UNREACHED %s\n" (ascii_of_str key)) clone_table;
+  Printf.printf "CLONETAB-DONE cloned_objects=%d components=%d clone_records=%d classes=%d tabfail=%d\n"
+    !clonetab_lines !clonetab_comps (List.length clone_table) (List.length class_table) !clone_fail;
   Printf.printf "MODEL-DONE checked=%d mismatches=%d ub=%d\n" !total !mism !ubs
